@@ -174,9 +174,17 @@ func FindCalls(fn *ssa.Function, pred func(ssa.Instruction) bool) []ssa.Instruct
 
 // ---------------------------------------------------------------- constants
 
-// ConstInt returns the integer value of v if it is a constant (through conversions).
+// ConstInt returns the integer value of v if it is a constant (through conversions and through
+// calls of trivial module accessors such as  func (t T) Byte() byte { return byte(t) }  on constants).
 func ConstInt(v ssa.Value) (int64, bool) {
 	v = StripConv(v)
+	if call, ok := v.(*ssa.Call); ok {
+		if f := call.Call.StaticCallee(); f != nil && len(f.Blocks) == 1 && len(f.Params) == 1 && len(call.Call.Args) == 1 {
+			if r, ok := f.Blocks[0].Instrs[len(f.Blocks[0].Instrs)-1].(*ssa.Return); ok && len(r.Results) == 1 && StripConv(r.Results[0]) == ssa.Value(f.Params[0]) {
+				return ConstInt(call.Call.Args[0])
+			}
+		}
+	}
 	if c, ok := v.(*ssa.Const); ok && c.Value != nil {
 		if c.Value.Kind() == constant.Int {
 			n, ok := constant.Int64Val(c.Value)
